@@ -317,6 +317,7 @@ func runCase(c Case, x *ev.Ctx) error {
 		os.WriteFile(r.file, v3, 0o600)
 		r.mu.Lock()
 		r.v2 = v3
+		r.served = r.inst.FailK + 1 // the failure prefix is over (under verify_log / none a wrongly signed list counts as acceptable and may have ended the observation early)
 		r.mu.Unlock()
 		if r.breakDecoy != nil {
 			r.origin.Serve("/decoy.crl", world.NewSimplePKI(fmt.Sprintf("c15-%d-%d-%d decoy", os.Getpid(), id, i), "p256c", "").CRL(3, "0e"))
